@@ -1,20 +1,20 @@
 SPECIFICATION MCSpec
 CONSTANTS
   Pods = {1, 2}
-  Uids = {1, 2, 3}
+  Uids = {1, 2}
   Enis = {1}
   Enforce = {"C02", "C03", "C08"}
   MCCap = 1
   MCMaxEni = 1
-  MCV6 = FALSE
+  MCV6 = TRUE
   MCMin = 0
   MCMax = 1
-  MCForced = TRUE
+  MCForced = FALSE
   MCResandbox = TRUE
   MCDrift = FALSE
   A4 = {1, 2, 3}
-  A6 = {}
+  A6 = {101, 102}
   MaxLen = 0
   GenOn = FALSE
-INVARIANTS BindingOk HeldBacked QuotaAddr QuotaEni
+INVARIANTS BindingOk HeldBacked QuotaAddr QuotaEni Exclusive
 CHECK_DEADLOCK FALSE
